@@ -28,7 +28,14 @@ def main():
     sh('git checkout -- . ', cwd=wt)
     rc, o = sh('git apply --check %s && git apply %s' % (patch, patch), cwd=wt)
     if rc != 0: print('patch does not apply:', o[-500:]); return 2
+    # the unedited suite: the demo (untracked files outside OUT/) is moved aside while it runs
+    rcu, ou = sh("git status --porcelain --untracked-files=all | grep '^??' | cut -c4- | grep -v '^OUT/' | grep -v '^target/'", cwd=wt)
+    aside = os.path.join(wt, 'OUT', '.aside'); moved = []
+    for f in [x for x in ou.splitlines() if x.strip()]:
+        d = os.path.join(aside, f); os.makedirs(os.path.dirname(d), exist_ok=True); shutil.move(os.path.join(wt, f), d); moved.append(f)
     rc, o = sh('cargo test --workspace --no-fail-fast --offline 2>&1', cwd=wt)
+    for f in moved:
+        os.makedirs(os.path.dirname(os.path.join(wt, f)), exist_ok=True); shutil.move(os.path.join(aside, f), os.path.join(wt, f))
     passed = sum(int(x) for x in re.findall(r'test result: \w+\. (\d+) passed', o)); failed = sum(int(x) for x in re.findall(r'(\d+) failed', o))
     # the demo (an extra test file) may be counted: subtract nothing, just require no failure outside the demo
     res['suite_with_change'] = {'rc': rc, 'passed': passed, 'failed': failed}
@@ -37,7 +44,7 @@ def main():
     sh('git apply -R %s' % patch, cwd=wt)
     rc_d0, o0 = sh(demo, cwd=wt)
     res['demo_without_change_rc'] = rc_d0
-    res['confirmed'] = (rc_d1 != 0 and rc_d0 == 0)
+    res['confirmed'] = (rc_d1 != 0 and rc_d0 == 0 and res['suite_with_change']['rc'] == 0 and failed == 0 and passed >= 58)
     print(json.dumps(res))
     if not res['confirmed']:
         print('NOT CONFIRMED\n--- with change:\n', o1[-1500:], '\n--- without:\n', o0[-1500:]); return 1
